@@ -77,6 +77,8 @@ REWRITES = {
     "flat_map_collect": ("chain_fmc", "", "", "xs.iter().flat_map(f).collect() -> shim with the same std body (R8)"),
     "map_or_inline": ("opt_map_or", "", "", "Option::map_or(default, f) inlined as its std definition `match self { Some(x) => f(x), None => default }`"),
     "box_as_ref": ("re", r"\bboxed\.as_ref\(\)", r"&**boxed", "Box::as_ref on &Box<T> replaced by its std body `&**self` (no vstd spec; generic over the allocator)"),
+    "self_name_clone_to_callee": ("re", r"self\.name\.value\.clone\(\)", r"string_clone(&callee.value)", "captured field path `self.name` of the lifted loop body becomes the parameter `callee` (R6); String::clone -> shim"),
+    "ref_ne": ("re", r"\barg_type != param_type\b", r"!datatype_eq(arg_type, param_type)", "`!=` on two `&DataType` (PartialEq for references) written as the derived comparison it resolves to"),
     "drop_const_fn": ("re", r"\bconst fn\b", "fn", "const fn that calls non-const shim"),
 }
 
@@ -292,6 +294,8 @@ def parse_seg(seg):
             return (k, seg[len(k) + 1:].strip())
     if seg.startswith("impl ") or seg.startswith("impl<"):
         return ("impl", rscan.norm(seg[4:]))
+    if seg.startswith("loopbody "):
+        return ("loopbody", seg[len("loopbody "):].strip())
     if seg.startswith("letblock "):
         return ("letblock", seg[len("letblock "):].strip())
     if seg.startswith("derive "):
@@ -315,6 +319,20 @@ def resolve(file, segs):
     chain = []
     item = None
     for n, (kind, name) in enumerate(segs):
+        if kind == "loopbody":
+            # body block of the k-th loop statement in the region (R6: the loop header is dropped, the body is lifted)
+            loops = [x for x in range(lo, hi) if toks[x].kind == "id" and toks[x].text in ("for", "while", "loop") and not (x > 0 and toks[x - 1].text in (".", "::"))]
+            k = int(name)
+            if k >= len(loops):
+                raise LostAnchor(f"{file} :: loopbody {k}: only {len(loops)} loops")
+            x = loops[k] + 1
+            while not (toks[x].kind == "open" and toks[x].text == "{"):
+                x = toks[x].mate + 1 if toks[x].kind == "open" else x + 1
+            r = Resolved()
+            r.src, r.toks, r.closure = src, toks, (loops[k], x - 1, x, toks[x].mate, True)
+            r.chain = chain
+            r.kind = "closure"
+            return r
         if kind == "letblock":
             # `let NAME [: T] = { ... };`  — the block is lifted like a closure body (R6)
             found = []
@@ -598,7 +616,7 @@ def emit_block(blk, rel, out_lines, meta):
     for order, (d, arg, payload, tl) in enumerate(blk.subs):
         if d in ("rewrite", "lift", "vis", "assume_body"):
             continue
-        if r.kind == "closure" and d not in ("before", "after", "loop"):
+        if r.kind == "closure" and d not in ("before", "after", "loop", "at_end"):
             if d == "sig":
                 # contract of the lifted function goes after the lifted signature
                 ins.append((-1, payload, order))
@@ -683,6 +701,11 @@ def emit_block(blk, rel, out_lines, meta):
             else:
                 ins.append((toks[bf].start, payload + [("{", tl)], order))
                 ins.append((toks[bl].end, [(" }", tl)], order, "inline"))
+        elif d == "at_end":
+            pos_e = text.rstrip().rfind("}")
+            if pos_e < 0:
+                raise LostAnchor(f"{rel}:{tl}: item has no closing brace")
+            ins.append((pos_e, payload, order))
         elif d == "after_closure":
             cm = re.match(r"\|(.*?)\|\s*(?:nth\s+(\d+)\s+of\s+(\d+)\s*)?$", arg.strip())
             if not cm:
